@@ -41,11 +41,13 @@ def check(run, prog, tier):
     run.rule("C18-C", "text importers handle real and complex data alike", minimum=2)
     run.rule("C18-D", "units-managed storage is internal (pickles are unit-context free)", minimum=10)
     run.rule("C18-E", "whole-object save/load go through one parcel format", minimum=4)
+    run.rule("C18-F", "pickling hooks restore state without recomputing from units- or basis-managed reads", minimum=20)
     rule_A(run, prog)
     rule_B(run, prog)
     rule_C(run, prog)
     rule_D(run, prog)
     rule_E(run, prog)
+    rule_F(run, prog)
 
 
 def _dispatch(f):
@@ -245,6 +247,61 @@ def rule_D(run, prog):
         def __getattr__(self, name):
             return getattr(self.run, name)
     c05.rule_U5(Proxy(run), prog)
+
+
+def rule_F(run, prog):
+    """Objects are saved by pickling them whole (C18-E), so what is loaded is what was stored - unless
+    a class customises pickling.  A __setstate__/__getstate__/__reduce__/__deepcopy__ that recomputes
+    part of the state reads it through the object's properties at load (or copy) time; a units- or
+    basis-managed property then returns values in whatever context is active at that moment, and the
+    loaded object differs from the saved one although every stored number is the same."""
+    rid = "C18-F"
+    HOOKS = ("__setstate__", "__getstate__", "__reduce__", "__reduce_ex__", "__deepcopy__", "__copy__")
+    managed = set()
+    for m_ in prog.modules.values():
+        for c in m_.classes.values():
+            for nme, val in c.attrs.items():
+                if isinstance(val, ast.Call) and any(k in norm(val.func) for k in ("Managed",)):
+                    managed.add(nme)
+    if not {"data", "start", "step"} <= managed:
+        raise AnalysisError("managed descriptor names not found: %s" % sorted(managed))
+    sav = [c for m_ in prog.modules.values() for c in m_.classes.values()
+           if any(b is not None and b.name in ("Saveable", "DataSaveable") for b in prog.mro(c))]
+    for c in sorted(sav, key=lambda x: x.qualname):
+        # hooks are judged at the class that defines them (subclasses inherit the verdict)
+        hooks = [f for n_, f in c.methods.items() if n_ in HOOKS]
+        bad = []
+        for h in hooks:
+            # closure over self-method calls, depth 3
+            seen, work = {}, [(h, 3)]
+            while work:
+                f, d = work.pop()
+                if f.qualname in seen:
+                    continue
+                seen[f.qualname] = f
+                if d > 0:
+                    for x in walk_no_nested(f.node):
+                        # methods of the class called on self or on any local object (a copy being built)
+                        if isinstance(x, ast.Call) and isinstance(x.func, ast.Attribute) and \
+                                isinstance(x.func.value, ast.Name):
+                            t_ = prog.find_method(c, x.func.attr)
+                            if t_ is not None:
+                                work.append((t_, d - 1))
+            from ..loader import parents_map
+            from ..unitflow import in_int_context
+            for f in seen.values():
+                pm = parents_map(f.node)
+                for x in walk_no_nested(f.node):
+                    if isinstance(x, ast.Attribute) and isinstance(x.ctx, ast.Load) and x.attr in managed \
+                            and not (isinstance(x.value, ast.Name) and x.value.id in ("state", "numpy", "np")) \
+                            and not in_int_context(pm, x):
+                        bad.append((h.short, f.short, norm(x)))
+        prog.consulted.add(c.module.relpath)
+        run.obligation(rid, c.name, not bad, key="state-hooks",
+                       message="%s customises pickling/copying and recomputes from managed properties at that time: %s "
+                               "(the value depends on the units/basis context active when the object is loaded or "
+                               "copied)" % (c.name, ["%s -> %s reads %s" % b for b in bad[:3]]),
+                       loc=c.module.relpath, sample={"class": c.name, "hooks": [h.short for h in hooks]})
 
 
 def rule_E(run, prog):
